@@ -157,6 +157,8 @@ func (o Op) String() string {
 		return fmt.Sprintf("v%d.%s(%s)", o.R, o.Kind, o.Pd)
 	case "Map", "MapValues":
 		return fmt.Sprintf("v%d.%s(%s)", o.R, o.Kind, o.Mp)
+	case "HashNew", "MapEntries":
+		return o.xString()
 	}
 	return fmt.Sprintf("v%d.%s()", o.R, o.Kind)
 }
